@@ -6,9 +6,16 @@
   Query answers are evaluated numerically through the history-free envelope model
   (Gama.Ls.envSolve) from the *symbolic* answer of the state machine; an answer whose
   provenance is not what a fresh object would compute prints `stale …`.
+
+  Round 3: a case may define several problems (`problem … end` repeatedly; `select k` picks the one
+  `new` uses, default the last); `reset_new k` is `reset(data of problem k)` (Model/EnvHist.lean,
+  `HOp.resetNew`); an `envinfo` line must follow before the next query.  Numbers are printed through
+  `Gama.C04.denote` (Model/EnvDenote.lean): every provenance term is evaluated on the problem it NAMES.
 -/
 import Gama.Proto
 import Gama.Model.EnvState
+import Gama.Model.EnvHist
+import Gama.Model.EnvDenote
 import Gama.Model.Ls.Common
 import Gama.Model.Ls.Env
 open Gama Gama.Proto Gama.Ls Gama.C04
@@ -23,6 +30,11 @@ structure Info where
 structure St where
   build : Option (PBuild Float) := none
   prob : Option (Problem Float) := none
+  /-- all problems of the case (identity = 1-based position) and the ordering facts read for each -/
+  probs : Array (Problem Float) := #[]
+  infos : Array (Option Info) := #[]
+  sel : Nat := 0             -- identity of `prob`
+  cur : Nat := 0             -- identity of the data set the object holds
   info : Option Info := none
   st : Option EnvState := none
   active : Bool := false     -- `new env solver` seen
@@ -89,26 +101,22 @@ def showE (f : α → String) : Except ErrKind α → String
   | .ok a => f a
   | .error e => "throw " ++ e.name
 
-/-- numeric value of a symbolic answer through the history-free model -/
-def evalOut (p : Problem Float) (f : Info) (cur : Option (List Nat)) : Out → String
-  | .x reg => showE (fun (a : Answer Float) => match a.xErr with
-      | some e => "throw " ++ e.name | none => showVec a.x) (envSolve { p with reg := regOf (reg.orElse fun _ => cur) })
-  | .resid => showE (fun (a : Answer Float) => showVec a.r) (envSolve { p with reg := regOf cur })
-  | .sumsq => showE (fun (a : Answer Float) => "val " ++ showFloat a.rtr) (envSolve { p with reg := regOf cur })
-  | .defect => showE (fun (a : Answer Float) => s!"int {a.defect}") (envSolve { p with reg := regOf cur })
-  | .lindep i => showE (fun (b : Bool) => s!"flag {if b then 1 else 0}") (envSolve { p with reg := regOf cur } >>= fun a => a.lindep i)
-  | .q0in ii jj => showE (fun x => "val " ++ showFloat x) (envSolve { p with reg := regOf cur } >>= fun a => a.q0xx (f.perm ii) (f.perm jj))
-  | .q0col (.invcol hi) lo => showE (fun x => "val " ++ showFloat x) (envSolve { p with reg := regOf cur } >>= fun a => a.q0xx (f.perm hi) (f.perm lo))
-  | .q0col src _ => s!"stale q0col {repr src}"
-  | .qxxSing (.trow i r) (.trow j r') =>
-    if r == r' then showE (fun x => "val " ++ showFloat x) (envSolve { p with reg := .subset r } >>= fun a => a.qxx i j)
-    else s!"stale qxx regs differ"
-  | .qxxSing a b => s!"stale qxx {repr a} {repr b}"
-  | .qbbIn i j => showE (fun x => "val " ++ showFloat x) (envSolve { p with reg := regOf cur } >>= fun a => a.qbb i j)
-  | .qbbFull i j => showE (fun x => "val " ++ showFloat x) (envSolve { p with reg := regOf cur } >>= fun a => a.qbb i j)
-  | .badReg => "throw BadRegularization"
-  | .stale w => "stale " ++ w
+def showD : DVal Float → String
+  | .vec v => showVec v
+  | .num x => "val " ++ showFloat x
+  | .int n => s!"int {n}"
+  | .flag b => s!"flag {if b then 1 else 0}"
   | .ok => "ok"
+  | .err e => "throw " ++ e.name
+  | .stale w => "stale " ++ w
+
+/-- the numeric world of the case: problems by identity, inverse orderings from the `envinfo` facts -/
+def world (s : St) : World Float :=
+  { prob := fun d => s.probs.getD (d - 1) { m := 0, n := 0, rows := #[], cov := #[], rhs := #[], reg := .none }
+    perm := fun d k => match s.infos.getD (d - 1) none with | some f => f.perm k | none => 0 }
+
+/-- numeric value of a symbolic answer: `denote` on the data sets the term names -/
+def evalOut (s : St) (cur : Option (List Nat)) (o : Out) : String := showD (denote (world s) s.cur cur o)
 
 def parseOp (ts : List String) : Option Op :=
   match ts with
@@ -135,14 +143,15 @@ def step' (s : St) (line : String) : St × String :=
   | [] => (s, "")
   | ["problem", m, n] =>
     match m.toNat?, n.toNat? with
-    | some m, some n => ({ build := some { m := m, n := n } }, "")
+    | some m, some n => ({ build := some { m := m, n := n }, probs := s.probs, infos := s.infos }, "")
     | _, _ => (s, "bad-op")
   | _ =>
   match s.build with
   | some b =>
     if ts = ["end"] then
       match b.finish with
-      | some p => ({ prob := some p }, "ok")
+      | some p => ({ prob := some p, probs := s.probs.push p, infos := s.infos.push none,
+                     sel := s.probs.size + 1 }, "ok")
       | none => ({}, "bad-op")
     else match b.feed ts with
       | some b' => ({ s with build := some b' }, "")
@@ -152,12 +161,27 @@ def step' (s : St) (line : String) : St × String :=
   | none => (s, "bad-op")
   | some p =>
   match ts with
+  | ["select", k] =>
+    match k.toNat? with
+    | some k => if 1 ≤ k ∧ k ≤ s.probs.size then
+        ({ s with prob := s.probs[k - 1]?, sel := k, st := none, active := false, info := none }, "ok") else (s, "bad-op")
+    | none => (s, "bad-op")
   | ["new", "env", "solver"] =>
     let m0 : Option (List Nat) := match p.reg with | .subset l => some l | _ => none
-    ({ s with active := true, st := some (Gama.C04.init m0), info := none }, "ok")
+    ({ s with active := true, st := some (Gama.C04.init m0), info := none, cur := s.sel }, "ok")
+  | ["reset_new", k] =>
+    match k.toNat?, s.st with
+    | some k, some st =>
+      if 1 ≤ k ∧ k ≤ s.probs.size then
+        -- `reset(data')`: the model's `reset` looks at neither input
+        let dummy : EnvInput := { n := 0, nullity := 0, invp := id, inEnv := fun _ _ => true, resolves := fun _ => true, qbbIn := fun _ _ => true }
+        let h' := (hstep ⟨dummy, st⟩ (.resetNew dummy)).1
+        ({ s with st := some h'.s, cur := k, info := none }, "ok")
+      else (s, "bad-op")
+    | _, _ => (s, "bad-op")
   | "envinfo" :: rest =>
     match parseInfo rest with
-    | some f => ({ s with info := some f }, " ".intercalate ts)
+    | some f => ({ s with info := some f, infos := s.infos.setIfInBounds (s.cur - 1) (some f) }, " ".intercalate ts)
     | none => (s, "bad-op")
   | ["state"] =>
     match s.st with
@@ -166,15 +190,15 @@ def step' (s : St) (line : String) : St × String :=
   | "fresh" :: q =>
     match s.st, s.info, parseOp q with
     | some st, some f, some op =>
-      let inp := f.toInput (resolvesDefault f.nullity)
-      (s, evalOut p f st.minx (Gama.C04.fresh inp st.minx op))
+      let inp := { f.toInput (resolvesDefault f.nullity) with id := s.cur }
+      (s, evalOut s st.minx (Gama.C04.fresh inp st.minx op))
     | _, _, _ => (s, "bad-op")
   | _ =>
     match s.st, s.info, parseOp ts with
     | some st, some f, some op =>
-      let inp := f.toInput (resolvesDefault f.nullity)
-      let (st', out) := Gama.C04.step inp st op
-      ({ s with st := some st' }, evalOut p f st'.minx out)
+      let inp := { f.toInput (resolvesDefault f.nullity) with id := s.cur }
+      let r := hstep ⟨inp, st⟩ (.q op)
+      ({ s with st := some r.1.s }, evalOut s r.1.s.minx r.2)
     | _, _, _ => (s, "bad-op")
 
 def main : IO Unit := loop step' {}
